@@ -3,8 +3,9 @@ CONSTANTS MaxN = 4
 Coords <- C2
 CtrlCoords <- C2
 Letters <- LettersZeroL
-GuardZ = TRUE
-GuardDeg = TRUE
-GuardZeroL = FALSE
+FixZ = TRUE
+FixDeg = TRUE
+FixZeroL = FALSE
+ForgetCp = TRUE
 INVARIANTS Refines InRange
 CHECK_DEADLOCK FALSE
